@@ -363,7 +363,13 @@ func (m *Machine) runPath(harness *ssa.Function, prefix []int, arg int) {
 		}
 	}
 	wantLeaf := false
-	if outcome == "ok" && ex.maxLeaves > 0 {
+	engineOnly := false // nondeterminism of stubs that are real functions natively cannot be replayed
+	for _, e := range m.ndlog {
+		if strings.HasPrefix(e.Name, "dump") {
+			engineOnly = true
+		}
+	}
+	if outcome == "ok" && ex.maxLeaves > 0 && !engineOnly {
 		ex.leafCtr++
 		if len(st.Leaves) < ex.maxLeaves && (ex.leafCtr%ex.leafSample == 1 || ex.leafSample == 1) {
 			wantLeaf = true
